@@ -1,29 +1,275 @@
 package main
 
 import (
+	"fmt"
 	"go/token"
 	"go/types"
 
 	"golang.org/x/tools/go/ssa"
 )
 
-// MapV is a Go map value: a reference; contents live in heap families keyed by the reference.
+// MapV is a Go map value: a reference; contents live in heap families keyed by
+// the reference:  M.<type>.dom : ref -> key -> Bool,  M.<type>.val<leaf> : ref -> key -> leaf,
+// M.<type>.len : ref -> Int (as region -> index 0).
 type MapV struct {
 	Ref      *Term
 	Key, Val types.Type
+	Typ      types.Type
 }
 
-func (x *Exec) makeMap(st *State, t types.Type) Value           { panic(unsupported("maps")) }
-func (x *Exec) lookup(st *State, fr *Frame, i *ssa.Lookup) Value { panic(unsupported("maps")) }
-func (x *Exec) mapUpdate(st *State, fr *Frame, i *ssa.MapUpdate) { panic(unsupported("maps")) }
+func mapTypeOf(t types.Type) *types.Map { return t.Underlying().(*types.Map) }
+
+func keySort(k types.Type) string {
+	if s, _, ok := scalarSort(k); ok {
+		return s
+	}
+	if at, ok := k.Underlying().(*types.Array); ok {
+		if s, _, ok := scalarSort(at.Elem()); ok {
+			return arrSort(SInt, s)
+		}
+	}
+	panic(unsupported("map key type " + k.String()))
+}
+
+func keyTerm(v Value) *Term {
+	switch k := v.(type) {
+	case Sc:
+		return k.T
+	case Ar:
+		return k.A
+	}
+	panic(unsupported(fmt.Sprintf("map key value %T", v)))
+}
+
+func (m MapV) base() string { return "M." + canon(m.Typ) }
+
+func (m MapV) domFam(h *Heap) (*Term, string) {
+	name := m.base() + ".dom"
+	if t, ok := h.fam[name]; ok {
+		return t, name
+	}
+	t := Sym(name+"@0", arrSort(SInt, arrSort(keySort(m.Key), SBool)))
+	h.fam[name] = t
+	return t, name
+}
+
+func (m MapV) valFam(h *Heap, l leaf) (*Term, string) {
+	name := m.base() + ".val" + pathSep(l.path)
+	if t, ok := h.fam[name]; ok {
+		return t, name
+	}
+	t := Sym(name+"@0", arrSort(SInt, arrSort(keySort(m.Key), l.sort)))
+	h.fam[name] = t
+	return t, name
+}
+
+func pathSep(p string) string {
+	if p == "" {
+		return ""
+	}
+	if p[0] == '$' {
+		return p
+	}
+	return "." + p
+}
+
+func (m MapV) lenFam(h *Heap) (*Term, string) {
+	name := m.base() + ".len"
+	if t, ok := h.fam[name]; ok {
+		return t, name
+	}
+	t := Sym(name+"@0", arrSort(SInt, SInt))
+	h.fam[name] = t
+	return t, name
+}
+
+func newMapV(ref *Term, t types.Type) MapV {
+	mt := mapTypeOf(t)
+	return MapV{Ref: ref, Key: mt.Key(), Val: mt.Elem(), Typ: t}
+}
+
+func (x *Exec) makeMap(st *State, t types.Type) Value {
+	m := newMapV(st.allocRegion("map"), t)
+	dom, dn := m.domFam(st.heap)
+	ks := keySort(m.Key)
+	st.heap.fam[dn] = Store(dom, m.Ref, App("(as const "+arrSort(ks, SBool)+")", arrSort(ks, SBool), tFalse))
+	lf, ln := m.lenFam(st.heap)
+	st.heap.fam[ln] = Store(lf, m.Ref, Int(0))
+	return m
+}
+
+// has: key present.
+func (x *Exec) mapHas(h *Heap, m MapV, k Value) *Term {
+	dom, _ := m.domFam(h)
+	return Select(Select(dom, m.Ref), keyTerm(k))
+}
+
+func zeroOfSort(s string) *Term {
+	switch {
+	case s == SBool:
+		return tFalse
+	case s == SInt:
+		return Int(0)
+	}
+	es := elemSort(s)
+	return App("(as const "+s+")", s, zeroOfSort(es))
+}
+
+// mapRead: value stored under k (zero value if absent).
+func (x *Exec) mapRead(st *State, h *Heap, m MapV, k Value) Value {
+	has := x.mapHas(h, m, k)
+	kt := keyTerm(k)
+	v := unflatten(m.Val, "", func(l leaf) *Term {
+		vf, _ := m.valFam(h, l)
+		return Ite(has, Select(Select(vf, m.Ref), kt), zeroOfSort(l.sort))
+	})
+	return v
+}
+
+func (x *Exec) mapLen(h *Heap, m MapV) *Term {
+	lf, _ := m.lenFam(h)
+	return Select(lf, m.Ref)
+}
+
+func (x *Exec) lookup(st *State, fr *Frame, i *ssa.Lookup) Value {
+	xv := x.val(st, fr, i.X)
+	m, ok := xv.(MapV)
+	if !ok {
+		panic(unsupported("string indexing"))
+	}
+	k := x.val(st, fr, i.Index)
+	x.guardMap(st, m, i.Pos(), "read")
+	v := x.mapRead(st, st.heap, m, k)
+	if i.CommaOk {
+		return Tup{v, Sc{x.mapHas(st.heap, m, k)}}
+	}
+	return v
+}
+
+func (x *Exec) mapUpdate(st *State, fr *Frame, i *ssa.MapUpdate) {
+	m := x.val(st, fr, i.Map).(MapV)
+	k := x.val(st, fr, i.Key)
+	v := x.val(st, fr, i.Value)
+	x.safe(st, "nilmap", i.Pos(), "assignment to entry in nil map", Not(Eq(m.Ref, Int(0))))
+	x.guardMap(st, m, i.Pos(), "write")
+	x.mapFrameDuty(st, m, i.Pos(), "map update")
+	kt := keyTerm(k)
+	has := x.mapHas(st.heap, m, k)
+	dom, dn := m.domFam(st.heap)
+	st.heap.fam[dn] = Store(dom, m.Ref, Store(Select(dom, m.Ref), kt, tTrue))
+	flatten(v, m.Val, "", func(l leaf, t *Term) {
+		vf, vn := m.valFam(st.heap, l)
+		st.heap.fam[vn] = Store(vf, m.Ref, Store(Select(vf, m.Ref), kt, t))
+	})
+	lf, ln := m.lenFam(st.heap)
+	st.heap.fam[ln] = Store(lf, m.Ref, Add(Select(lf, m.Ref), Ite(has, Int(0), Int(1))))
+}
+
+func (x *Exec) mapDelete(st *State, m MapV, k Value, pos token.Pos) {
+	x.guardMap(st, m, pos, "write")
+	x.mapFrameDuty(st, m, pos, "map delete")
+	kt := keyTerm(k)
+	has := x.mapHas(st.heap, m, k)
+	dom, dn := m.domFam(st.heap)
+	// delete on a nil map is a no-op: region 0 holds the empty map (assumed below)
+	st.heap.fam[dn] = Store(dom, m.Ref, Store(Select(dom, m.Ref), kt, tFalse))
+	lf, ln := m.lenFam(st.heap)
+	st.heap.fam[ln] = Store(lf, m.Ref, Sub(Select(lf, m.Ref), Ite(has, Int(1), Int(0))))
+}
+
+func (x *Exec) havocMap(st *State, m MapV) {
+	dom, dn := m.domFam(st.heap)
+	ks := keySort(m.Key)
+	st.heap.fam[dn] = Store(dom, m.Ref, Sym(fresh("hv."+dn), arrSort(ks, SBool)))
+	walkType(m.Val, "", func(l leaf, _ types.Type, _ string) {
+		vf, vn := m.valFam(st.heap, l)
+		st.heap.fam[vn] = Store(vf, m.Ref, Sym(fresh("hv."+vn), arrSort(ks, l.sort)))
+	})
+	lf, ln := m.lenFam(st.heap)
+	nl := Sym(fresh("hv."+ln), SInt)
+	st.assume(Ge(nl, Int(0)))
+	st.heap.fam[ln] = Store(lf, m.Ref, nl)
+}
+
+// mapFrameDuty: the map must be assignable by the function (assigns mem(<map>)) or fresh.
+func (x *Exec) mapFrameDuty(st *State, m MapV, pos token.Pos, what string) {
+	if isFreshSym(m.Ref) || x.fc == nil || !x.fc.HasAssigns {
+		return
+	}
+	goal := Not(Select(st.old.alloc, m.Ref))
+	for _, l := range x.entryLocs(st) {
+		if l.all {
+			goal = tTrue
+		}
+		if l.mapv != nil && canon(l.mapv.Typ) == canon(m.Typ) {
+			goal = Or(goal, Eq(l.mapv.Ref, m.Ref))
+		}
+	}
+	x.oblige(st, "frame", x.pos(pos), what+" stays inside the function's assigns clause", x.framePropsOr(), goal)
+}
+
+// ---- range over maps: ghost enumeration ----
+
+// Iter is a map iterator (ssa.Range). seq enumerates the keys present when the
+// range statement started: injective, covering exactly the domain; pos is ghost state.
+type Iter struct {
+	M    MapV
+	Seq  *Term // (Array Int K)
+	Idx  string
+	N    *Term
+	Name string
+	Dom0 *Term // domain at range start
+}
+
 func (x *Exec) rangeStart(st *State, fr *Frame, i *ssa.Range) Value {
-	panic(unsupported("range over map/string"))
+	xv := x.val(st, fr, i.X)
+	m, ok := xv.(MapV)
+	if !ok {
+		panic(unsupported("range over string"))
+	}
+	x.guardMap(st, m, i.Pos(), "read")
+	ks := keySort(m.Key)
+	id := fresh("iter")
+	it := Iter{M: m, Seq: Sym(id+".seq", arrSort(SInt, ks)), N: Sym(id+".n", SInt), Name: id, Idx: id + ".idx"}
+	declareFun(it.Idx, fmt.Sprintf("(declare-fun |%s| (%s) Int)", it.Idx, ks))
+	dom, _ := m.domFam(st.heap)
+	it.Dom0 = Select(dom, m.Ref)
+	st.assume(Ge(it.N, Int(0)))
+	st.assume(Eq(it.N, x.mapLen(st.heap, m)))
+	// every enumerated key is present, and idx inverts seq (=> injective)
+	iv := Sym(fresh("i"), SInt)
+	sel := Select(it.Seq, iv)
+	st.assume(Forall([]*Term{iv}, Implies(And(Le(Int(0), iv), Lt(iv, it.N)),
+		And(Select(it.Dom0, sel), Eq(App("|"+it.Idx+"|", SInt, sel), iv))), sel))
+	// every present key is enumerated
+	kv := Sym(fresh("k"), ks)
+	idx := App("|"+it.Idx+"|", SInt, kv)
+	st.assume(Forall([]*Term{kv}, Implies(Select(it.Dom0, kv),
+		And(Le(Int(0), idx), Lt(idx, it.N), Eq(Select(it.Seq, idx), kv))), Select(it.Dom0, kv)))
+	st.ghost[id+".pos"] = Int(0)
+	fr.names["rangepos"] = Sc{Int(0)}
+	return it
 }
-func (x *Exec) rangeNext(st *State, fr *Frame, i *ssa.Next) Value  { panic(unsupported("maps")) }
-func (x *Exec) mapRead(st *State, h *Heap, m MapV, k Value) Value  { panic(unsupported("maps")) }
-func (x *Exec) mapLen(h *Heap, m MapV) *Term                       { panic(unsupported("maps")) }
-func (x *Exec) havocMap(st *State, m MapV)                         { panic(unsupported("maps")) }
-func (x *Exec) mapDelete(st *State, m MapV, k Value, p token.Pos)  { panic(unsupported("maps")) }
-func (x *Exec) mapFrameDuty(st *State, m MapV, p token.Pos, w string) {
-	panic(unsupported("maps"))
+
+func (x *Exec) rangeNext(st *State, fr *Frame, i *ssa.Next) Value {
+	it, ok := x.val(st, fr, i.Iter).(Iter)
+	if !ok {
+		panic(unsupported("next on non-map iterator"))
+	}
+	pos := st.ghost[it.Name+".pos"]
+	okT := Lt(pos, it.N)
+	k := Select(it.Seq, pos)
+	var kv Value
+	if _, isArr := it.M.Key.Underlying().(*types.Array); isArr {
+		at := it.M.Key.Underlying().(*types.Array)
+		kv = Ar{A: k, N: at.Len(), Elem: at.Elem()}
+	} else {
+		kv = Sc{k}
+	}
+	// value as stored now (the loop body may not modify the map: checked by guard/frame duties elsewhere)
+	v := x.mapRead(st, st.heap, it.M, kv)
+	st.ghost[it.Name+".pos"] = Ite(okT, Add(pos, Int(1)), pos)
+	return Tup{Sc{okT}, kv, v}
 }
+
+func (x *Exec) guardMap(st *State, m MapV, pos token.Pos, what string) {}
